@@ -20,15 +20,18 @@ class SpatialGradient2D:
         assert xbar.ndim == 2, 'This operator only works on 2D arrays.'
         end = xbar.shape[1]
         ind_compute = slice(1, end-1)
-        ind_lookbehind = slice(0, end-2)
+        ind_lookahead = slice(2, end)
         out = np.zeros_like(xbar)
-        out[:, ind_compute] = xbar[:, ind_lookbehind] - xbar[:, ind_compute]
+        # forward: out[i] = x[i+1] - x[i] for i in ind_compute, so xbar[i] flows to x[i+1] with a plus
+        # sign and to x[i] with a minus sign
+        out[:, ind_lookahead] += xbar[:, ind_compute]
+        out[:, ind_compute] -= xbar[:, ind_compute]
         return out
 
     def forward_y(self, x):
         """Compute the Y spatial gradient of an array."""
         assert x.ndim == 2, 'This operator only works on 2D arrays.'
-        end = x.shape[1]
+        end = x.shape[0]
         ind_compute = slice(1, end-1)
         ind_lookahead = slice(2, end)
         out = np.zeros_like(x)
@@ -38,9 +41,10 @@ class SpatialGradient2D:
     def backprop_y(self, xbar):
         """Backpropagate through Y spatial gradient of an array."""
         assert xbar.ndim == 2, 'This operator only works on 2D arrays.'
-        end = xbar.shape[1]
+        end = xbar.shape[0]
         ind_compute = slice(1, end-1)
-        ind_lookbehind = slice(0, end-2)
+        ind_lookahead = slice(2, end)
         out = np.zeros_like(xbar)
-        out[ind_compute, :] = xbar[ind_lookbehind, :] - xbar[ind_compute, :]
+        out[ind_lookahead, :] += xbar[ind_compute, :]
+        out[ind_compute, :] -= xbar[ind_compute, :]
         return out
